@@ -212,6 +212,14 @@ class ConnectionPool(object):
             # would lose the connection that was just checked out.
             self._host_pool_waiters[key] -= 1
 
+            if not self._host_pool_waiters[key] and host_pool.empty() \
+                    and self._host_pools.get(key) is host_pool \
+                    and not self._host_pools_lock.locked():
+                # A cancelled waiter was the only reason this host pool
+                # existed; no later check in would come to drop it.
+                del self._host_pools[key]
+                del self._host_pool_waiters[key]
+
         connection.key = key
 
         # TODO: Verify this assert is always true
